@@ -144,7 +144,7 @@ def hasPtr (st : Store) : Val → Bool
   | .tree _ _ t => t.toList.any fun e => isPtr e.1
 
 def hashStr (st : Store) (v : Val) : String :=
-  if hasPtr st v then "@" else hex16 (valHash addr st v)
+  if hasPtr st v then "@" else hex16 (valHashSrc addr st v)      -- container hashes through the programs extracted from X_Hash
 
 def excName : Option Exc → String
   | none => "ok"
@@ -262,7 +262,27 @@ def floatPairs (st : Store) (a b : Val) : List (UInt64 × UInt64) :=
       | some xs, some ys => (xs.zip ys).filterMap fun p => match p.1.1, p.2.1 with | .float x, .float y => some (x, y) | _, _ => none
       | _, _ => []
 
+/-- the frame / the fold programs the theorems of Props/C10.lean are proved for (C10_hash_data_source_frame, C10_container_hash_source) -/
+def murmurFrameD : HdFrame := ⟨false, 7, 8, 8, 7⟩
+def containerProgsAreFolds : Bool :=
+  let sq : CelloGen.Hash.FoldProg := ⟨0, 0, .xor (.t .acc) (.t .elem)⟩
+  let mp : CelloGen.Hash.FoldProg := ⟨0, 0, .xor (.xor (.t .acc) (.t .key)) (.t .val)⟩
+  CelloGen.Hash.arrayHashProg = sq && CelloGen.Hash.listHashProg = sq && CelloGen.Hash.tupleHashProg = sq &&
+    CelloGen.Hash.tableHashProg = mp && CelloGen.Hash.treeHashProg = mp
+
+/-- `hash_data` as the extracted program (cursor, `end`, loads, signedness of the bytes) on a memory that holds the bytes at an odd
+    address among 0xAA bytes; `nonterminating` = the cursor of the block loop stepped over `end` -/
+def hashDataAt (bs : Bytes) : String :=
+  let p := 3 + bs.length % 5
+  match hashDataMem (memOf 0xAA p bs) p bs.length with
+  | some h => hex16 h
+  | none => "nonterminating"
+
 structure Stats where
+  hashData : Nat := 0         -- D lines: `hash_data` run as the extracted program on a memory
+  hashDataMemNe : Nat := 0    -- … on which the program at a second address and `hashData` of the byte string disagree
+  hashTail : Array Nat := Array.replicate 8 0   -- D lines per entered case of the tail switch (size & 7)
+  hashBlocks : Nat := 0       -- rounds of the block loop over all D lines
   floatPairs : Nat := 0       -- pairs of doubles on which the extracted `Float_Cmp` was run with the machine's arithmetic
   floatSrcNeModel : Nat := 0  -- … and gave another result than the bit-level `floatCmp` of the model
   floatSfNeHw : Nat := 0      -- … or the exact arithmetic `sfOps` disagreed with the machine
@@ -302,10 +322,15 @@ def step (st : Store) (stats : Stats) (toks : List String) : IO (Store × Stats)
   let bad : IO (Store × Stats) := do IO.println "O bad-op"; return (st, stats)
   match toks with
   | ["D"] =>
-    IO.println s!"O D len=0 h={hex16 (hashData [])}"; return (st, stats)
+    IO.println s!"O D len=0 h={hashDataAt []}"; return (st, {stats with hashData := stats.hashData + 1})
   | ["D", h] =>
     match parseHex h with
-    | some bs => IO.println s!"O D len={bs.length} h={hex16 (hashData bs)}"; return (st, stats)
+    | some bs =>
+      IO.println s!"O D len={bs.length} h={hashDataAt bs}"
+      -- the program on memory against the interpreter on the byte string (equal by C10_hash_data_program_is_hash_data for the frame of the unchanged source)
+      let ne := if hashDataMem (memOf 0x55 (16 + bs.length % 8) bs) (16 + bs.length % 8) bs.length = some (hashData bs) then 0 else 1
+      return (st, {stats with hashData := stats.hashData + 1, hashDataMemNe := stats.hashDataMemNe + ne, hashBlocks := stats.hashBlocks + bs.length / 8,
+                              hashTail := stats.hashTail.modify (bs.length % 8) (· + 1)})
     | none => bad
   | ["new", ids, cls, spec] =>
     match parseId ids, parseCls cls true, parseSpec st spec with
@@ -416,7 +441,7 @@ def step (st : Store) (stats : Stats) (toks : List String) : IO (Store × Stats)
           | none => IO.println s!"O eq {x} {y} c=TypeError ha={ha} hb={hb}"; return (st, stats)
           | some c =>
             if ptr then
-              let same := valHash addr st ox.val = valHash addr st oy.val
+              let same := valHashSrc addr st ox.val = valHashSrc addr st oy.val
               IO.println s!"O eq {x} {y} c={if c = 0 then "0" else "ne"} ha={ha} hb={hb} hsame={if same then 1 else 0}"
             else IO.println s!"O eq {x} {y} c={sign c} ha={ha} hb={hb}"
             return (st, stats)
@@ -451,7 +476,7 @@ def step (st : Store) (stats : Stats) (toks : List String) : IO (Store × Stats)
       | some x, some y =>
         match st.get x, st.get y with
         | some ox, some oy =>
-          let same := valHash addr st ox.val = valHash addr st oy.val
+          let same := valHashSrc addr st ox.val = valHashSrc addr st oy.val
           IO.println s!"O heq {x} {y} ha={hashStr st ox.val} hb={hashStr st oy.val} same={if same then 1 else 0}"
           return (st, { stats with eqPairs := stats.eqPairs + 1 })
         | _, _ => bad
@@ -799,5 +824,6 @@ def main (args : List String) : IO Unit := do
       | some ⟨_, .seq _ ety items, _⟩ =>
         stats := { stats with unsized := stats.unsized + (if items.all (sizedB (tyWords ety)) then 0 else 1) }
       | _ => pure ()
+  IO.println s!"S hash_data_programs={stats.hashData} hash_data_mem_ne_bytes={stats.hashDataMemNe} hash_data_frame_is_murmur={if srcFrame = HashDrv.murmurFrameD then 1 else 0} container_hash_programs_are_folds={if HashDrv.containerProgsAreFolds then 1 else 0} hash_data_blocks={stats.hashBlocks}{String.join ((List.range 8).map fun k => s!" hash_data_tail{k}={stats.hashTail.getD k 0}")}"
   IO.println s!"S float_pairs={stats.floatPairs} float_src_ne_model={stats.floatSrcNeModel} float_sf_ne_hw={stats.floatSfNeHw} float_near_pairs={stats.floatNear} self_assigns={stats.selfAssigns} lookups={stats.lookups}"
   IO.println s!"S eq_pairs={stats.eqPairs} eq_zero={stats.eqZero} copies={stats.copies} swaps={stats.swaps} sorts={stats.sorts} swap_not_exchanging={stats.swapMixed} memswap_shape_ok={if swapOk CelloGen.Hash.memswapProg then 1 else 0} displaced_tables={stats.displaced} tree_states={stats.treeStates} tree_not_descending={stats.treeBad} table_states={stats.tableStates} table_keys_not_distinct={stats.tableBad} unsized_states={stats.unsized} tree_relocations={stats.treeReloc} wide_moves={stats.wideMoves}"
